@@ -1,5 +1,7 @@
-(* Chunking.v — chunking independence lifted from the vte model to Parser::process. *)
-Require Import Tac Utf8 Vte Screen Perform Parser VteInv VteChunk.
+(* Chunking.v — chunking independence of Parser::process.  Since the repair of finding K04a
+   (Parser.process holds back an incomplete utf-8 tail, Parser.pend) it holds for EVERY chunking:
+   the bytes that reach vte never trigger vte's own chunk-boundary bug. *)
+Require Import Tac Utf8 Vte Screen Perform Parser Utf8Lemmas VteInv VteChunk Pend.
 Open Scope N_scope.
 
 Lemma perform_norm rz s a : perform rz s (norm a) = perform rz s a.
@@ -41,40 +43,184 @@ Fixpoint process_chunks (p : parser) (cs : list (list N)) : res parser :=
   | c :: r => do q <- process p c; process_chunks q r
   end.
 
-(* ... which is the same as performing all actions of advance_chunks at once *)
-Lemma process_chunks_eq cs : forall p,
-  process_chunks p cs =
-  (let '(v, acts) := advance_chunks (vt p) cs in
-   do '(s, evs) <- perform_all (resizing p) (scr p) acts [];
-   Ok (mkParser v s (log p ++ evs) (resizing p))).
+(* ---------- the invariant that links vte's partial buffer to the held-back tail ---------- *)
+
+(* [pend p] is empty or an incomplete utf-8 sequence (so at most 3 bytes); vte's state is
+   well-formed; and vte's own partial buffer can be non-empty only while bytes are held back.
+   NOTE: [partial (vt p) = []] is NOT invariant: process p [195;195] delivers [195] and holds back
+   [195] (the two-byte suffix is an error, not incomplete), so vte itself buffers [195].  It is
+   harmless, because the next byte vte sees is then the lead byte held back ([k04a_shielded]). *)
+Record pend_inv (p : parser) : Prop := mkPendInv {
+  pi_pwf : pwf (vt p);
+  pi_partial : pend p = [] -> partial (vt p) = [];
+  pi_pend : incomplete_tail (pend p) = len (pend p) }.
+
+Lemma pend_inv_len p : pend_inv p -> len (pend p) <= 3.
+Proof. intros [_ _ H]. rewrite <- H. apply incomplete_tail_le3. Qed.
+
+Lemma pend_inv_inc p : pend_inv p -> pend p = [] \/ inc (pend p).
+Proof. intros [_ _ H]. now apply incomplete_tail_self. Qed.
+
+Lemma pend_inv_new rows cols cap rz p : parser_new rows cols cap rz = Ok p -> pend_inv p.
 Proof.
-  induction cs as [|c r IH]; intros p; cbn [process_chunks advance_chunks].
-  - cbn. rewrite app_nil_r. destruct p; reflexivity.
-  - unfold process. destruct (advance (vt p) c) as [v1 a1] eqn:E1.
-    destruct (advance_chunks v1 r) as [v2 a2] eqn:E2.
-    rewrite perform_all_app.
-    destruct (perform_all (resizing p) (scr p) a1 []) as [[s1 e1]|k]; cbn [bind]; [|reflexivity].
-    rewrite IH. cbn [vt scr log resizing]. rewrite E2.
-    rewrite (perform_all_acc _ a2 s1 e1).
-    destruct (perform_all (resizing p) s1 a2 []) as [[s2 e2]|k]; cbn [bind]; [|reflexivity].
-    now rewrite app_assoc.
+  intros E. unfold parser_new in E. bind_inv E. inv E.
+  split; cbn [vt pend]; [exact pwf_init|reflexivity|reflexivity].
 Qed.
 
-Theorem process_chunking_independent p cs1 cs2 :
-  pwf (vt p) -> concat cs1 = concat cs2 -> clean (vt p) cs1 -> clean (vt p) cs2 ->
-  process_chunks p cs1 = process_chunks p cs2.
+Lemma parser_new_pend rows cols cap rz p : parser_new rows cols cap rz = Ok p -> pend p = [].
+Proof. intros E. unfold parser_new in E. bind_inv E. inv E. reflexivity. Qed.
+
+(* what process hands to vte, and what it keeps *)
+Definition delivered (p : parser) (bs : list N) : list N := hd_part (pend p ++ bs).
+Definition held (p : parser) (bs : list N) : list N := tl_part (pend p ++ bs).
+
+Lemma process_unfold p bs :
+  process p bs =
+  (let '(v, acts) := advance (vt p) (delivered p bs) in
+   do '(s, evs) <- perform_all (resizing p) (scr p) acts [];
+   Ok (mkParser v s (log p ++ evs) (resizing p) (held p bs))).
+Proof. reflexivity. Qed.
+
+Lemma delivered_held p bs : delivered p bs ++ held p bs = pend p ++ bs.
+Proof. apply hd_tl_part. Qed.
+
+(* nothing held back before, input ending in a complete character: all of it is delivered *)
+Lemma delivered_clean p bs : pend p = [] -> incomplete_tail bs = 0 -> delivered p bs = bs.
+Proof. intros Hp Z. unfold delivered. rewrite Hp. exact (hd_part_zero _ Z). Qed.
+
+Lemma held_clean p bs : pend p = [] -> incomplete_tail bs = 0 -> held p bs = [].
+Proof. intros Hp Z. unfold held. rewrite Hp. exact (tl_part_zero _ Z). Qed.
+
+(* the delivered chunk is empty or starts with a byte that is not a continuation byte whenever
+   vte's partial buffer is non-empty *)
+Lemma delivered_lead p bs : pend_inv p -> partial (vt p) <> [] ->
+  delivered p bs = [] \/ ~ contb (hd 0 (delivered p bs)).
 Proof.
-  intros W E C1 C2. rewrite !process_chunks_eq.
-  destruct (chunking_independent (vt p) cs1 cs2 W E C1 C2) as [Hs Ha].
-  destruct (advance_chunks (vt p) cs1) as [v1 a1], (advance_chunks (vt p) cs2) as [v2 a2].
-  cbn [fst snd] in *. subst v2.
-  rewrite <- (perform_all_norms _ a1), <- (perform_all_norms _ a2), Ha. reflexivity.
+  unfold delivered.
+  intros I Hp. destruct (pend_inv_inc p I) as [E|E]; [elim Hp; exact (pi_partial p I E)|].
+  destruct (hd_part (pend p ++ bs)) as [|d0 d] eqn:Ed; [auto|right].
+  assert (H0 : hd 0 (hd_part (pend p ++ bs)) = hd 0 (pend p)).
+  { unfold hd_part. rewrite hd_firstnN.
+    - apply hd_app. exact (inc_nonnil _ E).
+    - assert (len (hd_part (pend p ++ bs)) <> 0) by (rewrite Ed, len_cons; lia).
+      rewrite len_hd_part in H. lia. }
+  rewrite Ed in H0. rewrite H0. pose proof (inc_hd _ E). unfold contb. lia.
+Qed.
+
+(* THE SHIELD: no call of process presents vte with its K04a trigger *)
+Theorem k04a_shielded p bs : pend_inv p -> k04a (vt p) (delivered p bs) = false.
+Proof.
+  intros I. destruct (partial (vt p)) as [|u0 u] eqn:Ep; [unfold k04a; now rewrite Ep|].
+  apply k04a_lead; [exact (pi_pwf p I)|]. apply delivered_lead; [exact I|rewrite Ep; discriminate].
 Qed.
 
 (* the parser state stays well-formed along any history *)
 Lemma process_pwf p bs q : pwf (vt p) -> process p bs = Ok q -> pwf (vt q).
 Proof.
-  intros W. unfold process. pose proof (advance_pwf (vt p) bs W) as W'.
-  destruct (advance (vt p) bs) as [v a]. cbn [fst] in W'.
+  intros W. rewrite process_unfold. pose proof (advance_pwf (vt p) (delivered p bs) W) as W'.
+  destruct (advance (vt p) _) as [v a]. cbn [fst] in W'.
   intros E. bind_inv E. destruct v0. inv E. exact W'.
+Qed.
+
+Lemma process_pend p bs q : process p bs = Ok q -> pend q = held p bs.
+Proof.
+  rewrite process_unfold. destruct (advance (vt p) _) as [v a].
+  intros E. bind_inv E. destruct v0. inv E. reflexivity.
+Qed.
+
+Lemma process_vt p bs q : process p bs = Ok q -> vt q = fst (advance (vt p) (delivered p bs)).
+Proof.
+  rewrite process_unfold. destruct (advance (vt p) _) as [v a].
+  intros E. bind_inv E. destruct v0. inv E. reflexivity.
+Qed.
+
+Theorem process_pend_inv p bs q : pend_inv p -> process p bs = Ok q -> pend_inv q.
+Proof.
+  intros I E. split.
+  - exact (process_pwf p bs q (pi_pwf p I) E).
+  - rewrite (process_pend p bs q E), (process_vt p bs q E). unfold held, delivered. intros T.
+    assert (Z : incomplete_tail (pend p ++ bs) = 0) by (rewrite <- len_tl_part, T; reflexivity).
+    rewrite (hd_part_zero _ Z).
+    destruct (pend p) as [|x0 x] eqn:Ex.
+    + apply advance_partial_nil; [exact (pi_pwf p I)|exact (pi_partial p I Ex)|exact Z].
+    + apply advance_partial_nil_lead; [exact (pi_pwf p I)| |exact Z].
+      rewrite <- Ex. destruct (pend_inv_inc p I) as [E0|E0]; [congruence|].
+      split; [rewrite Ex; discriminate|].
+      rewrite hd_app by (rewrite Ex; discriminate). pose proof (inc_hd _ E0). unfold contb. lia.
+  - rewrite (process_pend p bs q E). apply tl_part_idem.
+Qed.
+
+(* process on a parser that holds nothing back, with input that ends in a complete character:
+   everything goes to vte, nothing is held back (the behaviour of the unrepaired process) *)
+Lemma process_clean p bs : pend p = [] -> incomplete_tail bs = 0 ->
+  process p bs =
+  (let '(v, acts) := advance (vt p) bs in
+   do '(s, evs) <- perform_all (resizing p) (scr p) acts [];
+   Ok (mkParser v s (log p ++ evs) (resizing p) [])).
+Proof.
+  intros Hp Z. rewrite process_unfold, (delivered_clean _ _ Hp Z), (held_clean _ _ Hp Z). reflexivity.
+Qed.
+
+Lemma process_clean_pend p bs q : pend p = [] -> incomplete_tail bs = 0 -> process p bs = Ok q -> pend q = [].
+Proof. intros Hp Z E. rewrite (process_pend _ _ _ E). exact (held_clean _ _ Hp Z). Qed.
+
+(* ---------- process in terms of the repaired vte model ---------- *)
+
+(* deliver the complete part of a buffer to advance', keep the rest *)
+Definition deliver (p : parser) (buf : list N) : res parser :=
+  let '(v, acts) := advance' (vt p) (hd_part buf) in
+  do '(s, evs) <- perform_all (resizing p) (scr p) (norms acts) [];
+  Ok (mkParser v s (log p ++ evs) (resizing p) (tl_part buf)).
+
+Lemma process_deliver p bs : pend_inv p -> process p bs = deliver p (pend p ++ bs).
+Proof.
+  intros I. rewrite process_unfold. unfold deliver. fold (delivered p bs). fold (held p bs).
+  rewrite (advance_eq_advance' _ _ (k04a_shielded p bs I)).
+  destruct (advance' (vt p) _) as [v a]. now rewrite perform_all_norms.
+Qed.
+
+Lemma deliver_app p buf c : pwf (vt p) ->
+  deliver p (buf ++ c) = (do q <- deliver p buf; deliver q (pend q ++ c)).
+Proof.
+  intros W. unfold deliver at 1 2.
+  rewrite hd_part_app, tl_part_app.
+  pose proof (advance'_app (vt p) (hd_part buf) (hd_part (tl_part buf ++ c)) W) as APP.
+  destruct (advance' (vt p) (hd_part buf)) as [v1 a1].
+  destruct (advance' v1 (hd_part (tl_part buf ++ c))) as [v2 a2] eqn:E2.
+  destruct APP as (z & -> & Hz). rewrite Hz, norms_app, perform_all_app.
+  destruct (perform_all (resizing p) (scr p) (norms a1) []) as [[s1 e1]|k]; cbn [bind]; [|reflexivity].
+  unfold deliver. cbn [vt scr log resizing pend]. rewrite E2.
+  rewrite (perform_all_acc _ (norms a2) s1 e1).
+  destruct (perform_all (resizing p) s1 (norms a2) []) as [[s2 e2]|k]; cbn [bind]; [|reflexivity].
+  now rewrite app_assoc.
+Qed.
+
+Lemma deliver_pend p : pend_inv p -> deliver p (pend p) = Ok p.
+Proof.
+  intros I. unfold deliver.
+  rewrite (hd_part_self _ (pi_pend p I)), (tl_part_self _ (pi_pend p I)).
+  rewrite (advance'_nil _ (pi_pwf p I)). cbn [norms map perform_all bind]. rewrite app_nil_r.
+  destruct p; reflexivity.
+Qed.
+
+(* feeding chunks = delivering the concatenation at once *)
+Theorem process_chunks_deliver cs : forall p, pend_inv p ->
+  process_chunks p cs = deliver p (pend p ++ concat cs).
+Proof.
+  induction cs as [|c r IH]; intros p I; cbn [process_chunks concat].
+  - rewrite app_nil_r. symmetry. exact (deliver_pend p I).
+  - rewrite app_assoc, (deliver_app _ _ _ (pi_pwf p I)), <- (process_deliver p c I).
+    destruct (process p c) as [q|k] eqn:E; cbn [bind]; [|reflexivity].
+    apply IH. exact (process_pend_inv p c q I E).
+Qed.
+
+(* chunking independence, no condition on the chunkings *)
+Theorem process_chunking_independent p cs1 cs2 :
+  pend_inv p -> concat cs1 = concat cs2 -> process_chunks p cs1 = process_chunks p cs2.
+Proof. intros I E. rewrite !process_chunks_deliver by exact I. now rewrite E. Qed.
+
+Lemma process_chunks_pend_inv cs : forall p q, pend_inv p -> process_chunks p cs = Ok q -> pend_inv q.
+Proof.
+  induction cs as [|c r IH]; intros p q I E; cbn [process_chunks] in E; [inv E; exact I|].
+  bind_inv E. exact (IH _ _ (process_pend_inv _ _ _ I E0) E).
 Qed.
